@@ -101,6 +101,10 @@ func Gen(r *hx.Rng, tier string, w io.Writer) {
 		scen{mode: "agg", bt: 50, span: 900, future: 300},   // start-up delay over before the stop
 		scen{mode: "full", bt: 50, span: 800, prod: 600},
 		scen{mode: "full", bt: 50, span: 700, prod: 500, slow: 40},
+		// a DA layer that (practically) hangs: every call is in flight when the stop request arrives and must be
+		// abandoned through the node's context
+		scen{mode: "full", bt: 50, span: 700, prod: 400, slow: 5000},
+		scen{mode: "agg", bt: 50, span: 600, slow: 5000},
 		// the DA layer rejects every submission and the retry back-off (DA block time x mempool TTL) is far longer than the
 		// stop bound: the stop request falls INTO the back-off of both submission loops and must still be prompt
 		scen{mode: "agg", bt: 50, span: 600, daf: "reject", dabt: 60, ttl: 100},
